@@ -123,12 +123,19 @@ pub fn current_handle(st: &[IdxState; NI], i: usize) -> Option<Entity> {
 /// (Liveness FLAGS are concrete per query because an allocator with symbolic bit-set membership
 /// under a `World` costs CBMC's array theory > 16 GB; the variant generator enumerates patterns.)
 pub fn pattern_entities_into(ent: &mut EntitiesRes, pat: [u8; NI]) -> [IdxState; NI] {
+    pattern_entities_into_g(ent, pat, false)
+}
+
+/// `concrete_gens`: the generations are the constants 3, 5, 7 instead of arbitrary values (used
+/// where the operation's effect on the allocator's bit sets must not depend on a symbolic
+/// generation comparison; generation arithmetic itself is decided by the allocator harnesses).
+pub fn pattern_entities_into_g(ent: &mut EntitiesRes, pat: [u8; NI], concrete_gens: bool) -> [IdxState; NI] {
     let mut slots = [VerifSlot { id: 0, gen: 0, alive: false, raised: false, killed: false }; NI];
     let mut st = [IdxState { g: 0, raised: false, killed: false }; NI];
     let mut cache = [0 as Index; NI];
     let mut nc = 0;
     for i in 0..NI {
-        let m = nd::i32();
+        let m = if concrete_gens { 3 + 2 * i as i32 } else { nd::i32() };
         nd::assume(m >= 1 && m < i32::MAX - 4);
         let alive = pat[i] == 0 || pat[i] == 3;
         let raised = pat[i] == 2 || pat[i] == 4;
